@@ -158,6 +158,20 @@ Overrides(ts, ov) ==
                      alts == Alts(ts[i].sep)
                  IN <<i, alts[(ov[k][2] % Len(alts)) + 1]>>
   IN IF n = 0 THEN [x \in {} |-> ""] ELSE [i \in { pick(k)[1] : k \in 1..Len(ov) } |-> (CHOOSE p \in { pick(k) : k \in 1..Len(ov) } : p[1] = i)[2]]
+\* C08: the token-mutation neighbourhood of a valid token stream - delete / duplicate / substitute / transpose
+SubPool == <<"[", "]", "(", ")", ":", ",", "#", "*", "or", "and", "but not", "from", "with", "define", "relations", "type", "extend", "model", "module",
+             "schema", "condition", "{", "}", "x", "1.1", "<", ">", "list", "map", "\"", "'", "\\", "//", "\f", "\t", "0x", "1e", "b\"", "r'", "@">>
+MutateOne(ts, mu) ==
+  LET n == Len(ts)
+      i == (mu[2] % (n - 1)) + 2                \* never the LEAD pseudo token
+  IN CASE mu[1] = "del" -> SubSeq(ts, 1, i - 1) \o SubSeq(ts, i + 1, n)
+       [] mu[1] = "dup" -> SubSeq(ts, 1, i) \o SubSeq(ts, i, n)
+       [] mu[1] = "sub" -> [ts EXCEPT ![i].lex = SubPool[(mu[3] % Len(SubPool)) + 1]]
+       [] mu[1] = "swap" -> IF i < n THEN [ts EXCEPT ![i].lex = ts[i + 1].lex, ![i + 1].lex = ts[i].lex] ELSE ts
+       [] mu[1] = "cut" -> SubSeq(ts, 1, i)       \* truncation after token i
+RECURSIVE MutateAll(_, _, _)
+MutateAll(ts, mus, k) == IF k > Len(mus) \/ Len(ts) < 3 THEN ts ELSE MutateAll(MutateOne(ts, mus[k]), mus, k + 1)
+
 StyleOf(s) == [ws |-> s.ws, ows |-> s.ows, eol |-> s.eol, ind |-> s.ind, blank |-> s.blank, cmt |-> s.cmt, trail |-> s.trail, multi |-> s.multi, lead |-> s.lead, fin |-> s.fin]
 
 Init == ji \in 1..NumJobs /\ job = <<>>
@@ -167,9 +181,9 @@ Emit == /\ job # <<>> /\ "done" \notin DOMAIN job
                N == Names(job.doc % 3)
                V == IF job.viol = 0 THEN [viol |-> "", tag |-> <<>>, doc |-> D0] ELSE Violate(D0, job.viol, job.vsite, N)
                D == V.doc
-               ts == Tokens(D)
+               ts == IF "mut" \in DOMAIN job THEN MutateAll(Tokens(D), job.mut, 1) ELSE Tokens(D)
                R == Render(ts, StyleOf(job.style), Overrides(ts, job.ov))
-           IN PrintT(ToJson([rec |-> "layout", id |-> job.id, text |-> R.text, valid |-> job.viol = 0, viol |-> V.viol,
+           IN PrintT(ToJson([rec |-> "layout", id |-> job.id, text |-> R.text, valid |-> job.viol = 0 /\ "mut" \notin DOMAIN job, viol |-> V.viol,
                              modular |-> D.header = "module", m |-> IF job.viol = 0 THEN ModelOf(D) ELSE <<>>,
                              tagged |-> Tagged(ts, R.pos), errtag |-> V.tag, nsites |-> Cardinality(Sites(ts))]))
         /\ job' = [job EXCEPT !.done = TRUE] /\ UNCHANGED ji
